@@ -117,7 +117,10 @@ def run_case(case) -> List[Tuple[str, str]]:
                 # alone: each line must carry the content at the time of its append, also when the driver buffers the lines
                 running: Dict[str, Any] = {}
                 for s in (("t1", "t2") if killed else ("t1", "t2", "t4")):
-                    append_jsonl(s + ".jsonl", _pad_payload(s, agent, turn, _sizes[s]))
+                    # (in every other case the records of the LAST agent of the task list are three times as large: a
+                    # staging limit may lie between the record sizes of one batch)
+                    big = 3 if (hv0 % 2 and agent == agents[-1]) else 1
+                    append_jsonl(s + ".jsonl", _pad_payload(s, agent, turn, _sizes[s] * big))
                     running.clear()
                     running.update({"turn": turn, "agent": agent, "stage": s})
                     append_jsonl("t3_plan.jsonl", running)
